@@ -45,7 +45,36 @@ def run_demo(prop, n, wt, meta):
         return (0 if ok else 1), out[-800:]
     return 99, 'no demo found'
 
+def recheck(name):
+    """re-run the property's check (or --checks) against an already confirmed seeded change kept under /verif/seeded/<name>/"""
+    d = os.path.join(V, 'seeded', name)
+    res = json.load(open(os.path.join(d, 'meta.json')))
+    prop = res['property']
+    checks = [prop]
+    if '--checks' in sys.argv: checks = sys.argv[sys.argv.index('--checks') + 1].split(',')
+    rc, out = sh('git -C /repo status --short | grep -v "^??" | head -3')
+    if out.strip(): print('/repo is not clean'); return
+    caught = res.get('checks', {})
+    try:
+        sh('git -C /repo apply %s' % os.path.join(d, 'patch.diff'))
+        for c in checks:
+            t0 = time.time()
+            rc, out = sh('./check %s --tier quick' % c, cwd=V, timeout=2400)
+            lines = [l for l in out.split('\n') if l.startswith('VIOLATION') or l.startswith(c + ' quick') or l.startswith('KNOWN')]
+            rp = None
+            m = re.search(r'replay=(\S+)', out)
+            if m and os.path.exists(m.group(1)): rp = json.load(open(m.group(1)))
+            caught[c] = {'exit': rc, 'lines': lines, 'wall_s': round(time.time() - t0, 1), 'replay': {k: rp.get(k) for k in ('program', 'observed', 'broken', 'sched_seed')} if rp else None}
+    finally:
+        sh('git -C /repo checkout -- .')
+    res['checks'] = caught
+    res['caught_by'] = [c for c in caught if caught[c]['exit'] == 1]
+    res['ran'].append('recheck: git -C /repo apply; ' + '; '.join('./check %s --tier quick' % c for c in checks) + '; git -C /repo checkout -- .')
+    json.dump(res, open(os.path.join(d, 'meta.json'), 'w'), indent=1)
+    print(name, 'recheck: caught by', res['caught_by'], [(c, caught[c]['lines'][:1]) for c in checks])
+
 def main():
+    if sys.argv[1] == '--recheck': return recheck(sys.argv[2])
     prop, n = sys.argv[1], int(sys.argv[2])
     checks = [prop]
     if '--checks' in sys.argv: checks = sys.argv[sys.argv.index('--checks') + 1].split(',')
